@@ -88,7 +88,7 @@ func (g *gen) declRx(t types.Type) string {
 	e0 := g.heapInit(elemKey(sn), es)
 	i := g.freshName("rxi")
 	el := app("select", app("select", e0, app("s_base", args)), sidx(app("s_off", args), i))
-	g.assumeGlobal(fmt.Sprintf("(forall ((%s %s) (%s Int)) (! (=> (and (rxvalid %s) (<= 0 %s) (< %s %s)) (rxvalid %s)) :pattern ((rxvalid %s) %s)))", x, sn, i, x, i, i, ln, el, x, el))
+	g.assumeGlobal(fmt.Sprintf("(forall ((%s %s) (%s Int)) (! (=> (and (rxvalid %s) (<= 0 %s) (< %s %s)) (rxvalid %s)) :pattern (%s)))", x, sn, i, x, i, i, ln, el, el))
 	g.rxElemKey = elemKey(sn)
 	return sn
 }
